@@ -1069,3 +1069,61 @@ fn first_diff(a: &[A4], b: &[A4], col_may_advance: bool) -> Option<usize> {
   }
   None
 }
+
+// ---------------------------------------------------------------- C17 / C19: every method returns normally
+
+/// Call every Source method and every streaming mode; any panic is a violation.
+pub fn all_methods_return(ctx: &mut Ctx, t: &Term) {
+  use std::hash::{Hash, Hasher};
+  ctx.evaluations += 1;
+  let src = match observe::guarded(|| t.build()) {
+    Ok(s) => s,
+    Err(e) => return report_panic(ctx, t, "build", &e),
+  };
+  let s = src.as_ref();
+  let mut calls: Vec<(&str, Result<u64, String>)> = Vec::new();
+  calls.push(("source", observe::guarded(|| s.source().len() as u64)));
+  calls.push(("buffer", observe::guarded(|| s.buffer().len() as u64)));
+  calls.push(("size", observe::guarded(|| s.size() as u64)));
+  calls.push(("rope", observe::guarded(|| s.rope().to_string().len() as u64)));
+  calls.push(("to_writer", observe::guarded(|| {
+    let mut v = Vec::new();
+    let _ = s.to_writer(&mut v);
+    v.len() as u64
+  })));
+  for columns in [true, false] {
+    calls.push((if columns { "map(true)" } else { "map(false)" }, observe::guarded(|| {
+      match s.map(&rspack_sources::MapOptions::new(columns)) {
+        Some(m) => m.decoded_mappings().count() as u64 + m.clone().to_json().map(|j| j.len() as u64).unwrap_or(0),
+        None => 0,
+      }
+    })));
+    for fin in [false, true] {
+      calls.push(("stream", observe::stream(s, columns, fin).map(|st| st.events.len() as u64)));
+    }
+  }
+  calls.push(("hash", observe::guarded(|| {
+    let mut h = rustc_hash::FxHasher::default();
+    s.update_hash(&mut h);
+    h.finish()
+  })));
+  calls.push(("debug", observe::guarded(|| format!("{s:?}").len() as u64)));
+  calls.push(("eq", observe::guarded(|| (&src == &src) as u64)));
+  calls.push(("clone", observe::guarded(|| {
+    let c: Box<dyn Source> = dyn_clone::clone_box(s);
+    c.size() as u64
+  })));
+  let mut h = rustc_hash::FxHasher::default();
+  for (name, r) in &calls {
+    ctx.transitions += 1;
+    match r {
+      Ok(v) => v.hash(&mut h),
+      Err(e) => report_panic(ctx, t, name, e),
+    }
+  }
+  ctx.outcome(&h.finish());
+  if t.depth() > 0 || matches!(t, Term::Sms(_)) {
+    ctx.nontrivial += 1;
+  }
+  ctx.traces_validated += 1;
+}
